@@ -44,12 +44,14 @@ static void mode_enc(void){
 }
 
 static void mode_encms(void){
-  vc_rng r; vc_case_rng(&r,14); int err; int Fs=VC_PICK(&r,vk_rates), app=VC_PICK(&r,vk_apps); static const int fams[4]={0,1,255,3}; int fam=VC_PICK(&r,fams); int ch;
-  if(fam==0) ch=vc_range(&r,1,2); else if(fam==1) ch=vc_range(&r,1,8); else if(fam==255) ch=vc_range(&r,1,6); else { int o=vc_range(&r,1,3); ch=(o+1)*(o+1)+(vc_chance(&r,1,3)?2:0); }
-  int streams,coupled; unsigned char map[255]; OpusMSEncoder *me[3]={0,0,0}; OpusProjectionEncoder *pe[3]={0,0,0};
-  for(int i=0;i<3;i++){ if(fam==3) pe[i]=opus_projection_ambisonics_encoder_create(Fs,ch,3,&streams,&coupled,app,&err); else me[i]=opus_multistream_surround_encoder_create(Fs,ch,fam,&streams,&coupled,map,app,&err); if(!pe[i]&&!me[i]){ vc_viol("enc:create","create failed fam %d ch %d",fam,ch); return; }
+  vc_rng r; vc_case_rng(&r,14); int err; int Fs=VC_PICK(&r,vk_rates), app=VC_PICK(&r,vk_apps); static const int fams[6]={0,1,255,3,-1,-1}; int fam=VC_PICK(&r,fams); int ch;
+  /* fam -1: an explicit layout with a random permutation as mapping (e.g. {1,0}: the right channel of a coupled stream fed by input channel 0) */
+  int streams,coupled; unsigned char map[255];
+  if(fam==0) ch=vc_range(&r,1,2); else if(fam==1) ch=vc_range(&r,1,8); else if(fam==255) ch=vc_range(&r,1,6); else if(fam==-1){ streams=vc_range(&r,1,3); coupled=vc_below(&r,streams+1); ch=streams+coupled; for(int i=0;i<ch;i++) map[i]=(unsigned char)i; for(int i=ch-1;i>0;i--){ int j=vc_below(&r,i+1); unsigned char t=map[i]; map[i]=map[j]; map[j]=t; } } else { int o=vc_range(&r,1,3); ch=(o+1)*(o+1)+(vc_chance(&r,1,3)?2:0); }
+  OpusMSEncoder *me[3]={0,0,0}; OpusProjectionEncoder *pe[3]={0,0,0};
+  for(int i=0;i<3;i++){ if(fam==3) pe[i]=opus_projection_ambisonics_encoder_create(Fs,ch,3,&streams,&coupled,app,&err); else if(fam==-1) me[i]=opus_multistream_encoder_create(Fs,ch,streams,coupled,map,app,&err); else me[i]=opus_multistream_surround_encoder_create(Fs,ch,fam,&streams,&coupled,map,app,&err); if(!pe[i]&&!me[i]){ vc_viol("enc:create","create failed fam %d ch %d",fam,ch); return; }
     if(me[i]) opus_multistream_encoder_ctl(me[i],OPUS_SET_LSB_DEPTH(16)); else opus_projection_encoder_ctl(pe[i],OPUS_SET_LSB_DEPTH(16)); }
-  vc_siggen g; vs_init(&g,vc_below(&r,VS_NFINITE),Fs,ch,0.5f,vc_next(&r)); float *f=(float*)malloc(sizeof(float)*5760*ch), *ff=(float*)malloc(sizeof(float)*5760*ch); opus_int16 *s16=(opus_int16*)malloc(2*5760*ch); opus_int32 *s24=(opus_int32*)malloc(4*5760*ch); static unsigned char pk[3][8000];
+  vc_siggen g; vs_init(&g,fam==-1?VS_WHITE:(int)vc_below(&r,VS_NFINITE),Fs,ch,0.5f,vc_next(&r)); float *f=(float*)malloc(sizeof(float)*5760*ch), *ff=(float*)malloc(sizeof(float)*5760*ch); opus_int16 *s16=(opus_int16*)malloc(2*5760*ch); opus_int32 *s24=(opus_int32*)malloc(4*5760*ch); static unsigned char pk[3][8000];
   int fidx=vc_below(&r,9);
   for(int k=0;k<10;k++){ if(vc_chance(&r,1,3)){ int br=vc_range(&r,6000,64000)*ch, vbr=vc_below(&r,2), cx=vc_below(&r,11); for(int i=0;i<3;i++){ if(me[i]){ opus_multistream_encoder_ctl(me[i],OPUS_SET_BITRATE(br)); opus_multistream_encoder_ctl(me[i],OPUS_SET_VBR(vbr)); opus_multistream_encoder_ctl(me[i],OPUS_SET_COMPLEXITY(cx)); } else { opus_projection_encoder_ctl(pe[i],OPUS_SET_BITRATE(br)); opus_projection_encoder_ctl(pe[i],OPUS_SET_VBR(vbr)); opus_projection_encoder_ctl(pe[i],OPUS_SET_COMPLEXITY(cx)); } } }
     if(vc_chance(&r,1,4)) fidx=vc_below(&r,9); int fs=vk_frame_samples(Fs,fidx); vs_fill(&g,f,fs); for(int i=0;i<fs*ch;i++){ s16[i]=vc_f2s(f[i]); s24[i]=(opus_int32)s16[i]*256; ff[i]=s16[i]*(1.f/32768.f); }
